@@ -7,14 +7,13 @@
    itself (lang.py:306-311), so the tool's output resource is mapped to the SAME concept
    node as that object and the returned resource -> node dict is no longer injective.
 
-   Model      Graph/Workflow.v          add_workflow with pinned = false: graph.py with commit
-                                        5e78fd2 applied (the returned dict goes through
-                                        wfnode2tfmnode, so the inputs a hand-on tool declares
-                                        but does not hand on are visited there at the latest)
+   Model      Graph/Workflow.v          add_workflow with pinned = false: graph.py as repaired
+                                        (commits 5e78fd2, 1f88f3e): right after the target every
+                                        resource goes through wfnode2tfmnode, so the inputs a
+                                        hand-on tool declares but does not hand on are visited
+                                        before the stand-in sources are connected and before the
+                                        dict is built
    Spec       Graph/WorkflowHandOn.v    wf_okb2  = wf_okb with [ttop2] (also TIn at the top),
-                                        handon_okb2 wf pt: true when passthrough is on; with
-                                          passthrough off: a tool that hands a workflow SOURCE
-                                          on has no other input that is a tool's output,
                                         hand_on wf pt r = Some q: r is the output of a tool
                                           that hands input q on and q's own expression object
                                           is what the parser gets (passthrough on, or q is a
@@ -30,15 +29,9 @@ From TF Require Import Graph.AddExpr Graph.AddExprSpec Graph.AddExprProofs.
 From TF Require Import Graph.Workflow Graph.WorkflowSpec Graph.WorkflowProofs Graph.WorkflowHandOn.
 
 (* the new class contains the old one *)
-Theorem C12_handon_class : forall wf pt,
-  wf_okb wf = true -> wf_okb2 wf = true /\ handon_okb2 wf pt = true.
-Proof. intros wf pt H. split; [exact (wf_okb_okb2 wf H) | exact (wf_okb_handon2 wf pt H)]. Qed.
+Theorem C12_handon_class : forall wf, wf_okb wf = true -> wf_okb2 wf = true.
+Proof. exact wf_okb_okb2. Qed.
 Print Assumptions C12_handon_class.
-
-(* with passthrough on there is no side condition *)
-Theorem C12_handon_pass_unconditional : forall wf, handon_okb2 wf true = true.
-Proof. exact handon_okb2_pass. Qed.
-Print Assumptions C12_handon_pass_unconditional.
 
 (* For every well-formed workflow, hand-on tools allowed (any number of applications, any
    sharing, any listing order, passthrough on or off) add_workflow succeeds and every
@@ -51,12 +44,12 @@ Print Assumptions C12_handon_pass_unconditional.
      input), which is fed (tf:from) by q's node;
    - an input that a hand-on tool declares but does not hand on is a resource like any
      other: it has its node and T has its tree, plugged as usual (it is visited, at the
-     latest, when the returned dict is built);
+     latest, in the pass over all resources that follows the target);
    - T gives every resource its tree as before; the tree of a hand-on tool is the leaf
      that feeds it (tshape's ts_in at the top), which introduces no node and no triple. *)
 Theorem C12_handon_plugged : forall add_from add_from_r,
   add_from_ok add_from -> add_from_ok add_from_r ->
-  forall pt wf, wf_okb2 wf = true -> handon_okb2 wf pt = true ->
+  forall pt wf, wf_okb2 wf = true ->
   exists res T sg tg,
     add_workflow add_from add_from_r false pt wf = Some res /\
     target wf = Some tg /\
@@ -104,31 +97,30 @@ Theorem C12_handon_none_in_old_class : forall wf pt,
 Proof. exact wf_okb_no_hand_on. Qed.
 Print Assumptions C12_handon_none_in_old_class.
 
-(* As pinned (before commit 5e78fd2) the property fails in this class: a hand-on tool with
-   a second input that is another tool's output (which its expression does not use), passthrough
-   on.  The faithful model returns None, i.e. the dict comprehension graph.py:506-507 raises
-   KeyError (confirmed on the implementation: sources {s0}; r1 := `f 1` [s0]; r2 := `g 1` [s0];
-   r3 := `1` [r1, r2]; r4 := `h 1 2` [r1, r3]): the unused input r2 is never visited because
-   r3's expression object (that of r1) already has a node when r3 is visited.  As repaired r2
-   is visited when the dict is built. *)
+(* As pinned (pinned = true: before commits 5e78fd2, 1f88f3e) the property fails in this class.
+   (1) passthrough on: a hand-on tool with a second input that is another tool's output (which
+   its expression does not use).  sources {s0}; r1 := `f 1` [s0]; r2 := `g 1` [s0];
+   r3 := `1` [r1, r2]; r4 := `h 1 2` [r1, r3].  The unused input r2 is never visited because
+   r3's expression object (that of r1) already has a node when r3 is visited: the dict
+   comprehension graph.py:506-507 raises KeyError (confirmed on the implementation); the
+   faithful model returns None.  As repaired add_workflow succeeds for both settings. *)
 Theorem C12_handon_unused_input_pinned_refuted :
   exists wf, wf_okb2 wf = true /\
     add_workflow add_from_plain add_from_plain true true wf = None /\
-    (exists res, add_workflow add_from_plain add_from_plain false true wf = Some res /\
-                 r_map res = [(0, 0); (1, 1); (2, 6); (3, 1); (4, 3)]).
+    (forall pt, exists res, add_workflow add_from_plain add_from_plain false pt wf = Some res).
 Proof. exact handon_unused_pinned_fails. Qed.
 Print Assumptions C12_handon_unused_input_pinned_refuted.
 
-(* The side condition handon_okb2 cannot be dropped for the repaired code either: passthrough
-   off, r3 := `1` [s0, r2] hands the SOURCE s0 on and declares the tool output r2.  The
-   indirection loop (graph.py:491-495) looks the node of r2's expression up before r2 has been
-   visited: KeyError (confirmed on /repo at 5e78fd2); the model returns None. *)
-Theorem C12_handon_src_unused_input_refuted :
+(* (2) passthrough off: r3 := `1` [s0, r2] hands the SOURCE s0 on and declares the tool output
+   r2.  The indirection loop (graph.py:487-490) looks the node of r2's expression up before r2
+   has been visited: KeyError (confirmed on the implementation at 5e78fd2, where only the dict
+   had been repaired); the model returns None. *)
+Theorem C12_handon_src_unused_input_pinned_refuted :
   exists wf, wf_okb2 wf = true /\
-    add_workflow add_from_plain add_from_plain false false wf = None /\
-    (exists res, add_workflow add_from_plain add_from_plain false true wf = Some res).
-Proof. exact handon_src_unused_fails. Qed.
-Print Assumptions C12_handon_src_unused_input_refuted.
+    add_workflow add_from_plain add_from_plain true false wf = None /\
+    (forall pt, exists res, add_workflow add_from_plain add_from_plain false pt wf = Some res).
+Proof. exact handon_src_unused_pinned_fails. Qed.
+Print Assumptions C12_handon_src_unused_input_pinned_refuted.
 
 (* ------------------------------------------------------------------------ *)
 (* Non-vacuity: a hand-on tool in the middle of a chain
@@ -140,9 +132,8 @@ Definition ho_a3 : tapp := mkApp 3 (TApp 31 (TOp 30 1) (TIn 0) false) [2] [32].
 Definition ho_wf : wflow := mkWf [0] [ho_a3; ho_a1; ho_a2].
 
 Example C12_handon_ex_wf :
-  wf_okb2 ho_wf = true /\ (forall pt, handon_okb2 ho_wf pt = true) /\ wf_okb ho_wf = false /\
-  target ho_wf = Some 3.
-Proof. repeat split; try reflexivity. intros []; reflexivity. Qed.
+  wf_okb2 ho_wf = true /\ wf_okb ho_wf = false /\ target ho_wf = Some 3.
+Proof. repeat split; reflexivity. Qed.
 
 (* passthrough on: resources 1 and 2 share node 1; g's node 3 is fed by it *)
 Example C12_handon_ex_run :
@@ -171,7 +162,7 @@ Proof. vm_compute. reflexivity. Qed.
 (* a workflow source handed on keeps its node also with passthrough off *)
 Example C12_handon_ex_source :
   let wf := mkWf [0] [mkApp 1 (TIn 0) [0] [12]; mkApp 2 (TApp 21 (TOp 20 1) (TIn 0) false) [1] [22]] in
-  wf_okb2 wf = true /\ handon_okb2 wf false = true /\
+  wf_okb2 wf = true /\
   add_workflow add_from_plain add_from_plain false false wf =
   Some (mkRes [(2, p_from, 0); (1, p_from, 2); (1, p_via, 1)] [0] 1 [(0, 0); (1, 0); (2, 1)]).
 Proof. cbv zeta. repeat split; vm_compute; reflexivity. Qed.
@@ -185,7 +176,7 @@ Example C12_handon_ex_apply : forall pt,
 Proof.
   intros pt.
   destruct (C12_handon_plugged add_from_plain add_from_plain add_from_plain_ok add_from_plain_ok
-              pt ho_wf eq_refl (handon_okb_okb2 ho_wf pt eq_refl))
+              pt ho_wf eq_refl)
     as [res [T [sg [tg [Hrun [_ [_ [_ [Hshare [Hhand _]]]]]]]]]].
   exists res. split; [exact Hrun|]. split.
   - apply Hshare; cbn; auto.
@@ -196,11 +187,11 @@ Proof.
     + destruct H as [sn [rn [A [_ [B D]]]]]. exists sn, rn. auto.
 Qed.
 
-(* a hand-on tool with an unused tool-produced input, passthrough on (no side condition):
+(* a hand-on tool with an unused tool-produced input, passthrough on:
      source 0;  1 := f 1 on [0];  2 := g 1 on [0];  3 := `1` on [1; 2];  4 := h 1 2 on [1; 3]
-   resource 2 is visited when the dict is built: node 6 with its tree g(source) *)
+   resource 2 is visited in the pass over all resources: node 6 with its tree g(source) *)
 Example C12_handon_ex_unused :
-  wf_okb2 unused_wf = true /\ handon_okb unused_wf = false /\
+  wf_okb2 unused_wf = true /\
   add_workflow add_from_plain add_from_plain false true unused_wf =
   Some (mkRes [(6, p_from, 0); (6, p_via, 1); (3, p_from, 1); (3, p_from, 1); (3, p_via, 2);
                (1, p_from, 0); (1, p_via, 0)]
@@ -216,7 +207,7 @@ Example C12_handon_ex_unused_apply :
 Proof.
   intros a2.
   destruct (C12_handon_plugged add_from_plain add_from_plain add_from_plain_ok add_from_plain_ok
-              true unused_wf eq_refl eq_refl)
+              true unused_wf eq_refl)
     as [res [T [sg [tg [Hrun [_ [_ [_ [_ [_ [HdT [_ [Hrho [_ [Hts [_ [_ [_ [Hg _]]]]]]]]]]]]]]]]]]].
   exists res, T, sg. split; [exact Hrun|]. split.
   - assert (H2 : In 2 (map fst T)) by (apply HdT; right; cbn; auto).
@@ -225,3 +216,15 @@ Proof.
     apply (Hts a2 L); [cbn; auto | exact HT].
   - intros t Hv. rewrite (Hg t Hv). split; [intros [H | [H _]]; [exact H | discriminate H] | auto].
 Qed.
+
+(* the same with passthrough off and a SOURCE handed on (the second witness):
+     source 0;  1 := f 1 on [0];  2 := g 1 on [0];  3 := `1` on [0; 2];  4 := h 1 2 on [1; 3]
+   resource 3 shares node 0 with the source; resource 2 has node 6 and its tree; the stand-in
+   source 8 of tool 3's unused input is fed by node 6 *)
+Example C12_handon_ex_src_unused :
+  wf_okb2 src_unused_wf = true /\
+  add_workflow add_from_plain add_from_plain false false src_unused_wf =
+  Some (mkRes [(5, p_from, 0); (4, p_from, 1); (8, p_from, 6); (6, p_from, 0); (6, p_via, 1);
+               (3, p_from, 5); (3, p_from, 4); (3, p_via, 2); (1, p_from, 0); (1, p_via, 0)]
+              [0] 3 [(0, 0); (1, 1); (2, 6); (3, 0); (4, 3)]).
+Proof. split; vm_compute; reflexivity. Qed.
